@@ -2,9 +2,9 @@
     implementation uses ([bounds_of_points] of the column polygon) the pre-filter never loses
     the containing column, so plain search is exhaustive search and every search aid whose
     premise holds agrees with it. *)
-From Coq Require Import List Bool Arith ZArith PArith QArith Qreduction Lia.
+From Coq Require Import List Bool Arith ZArith PArith QArith Qreduction Lia Lqa.
 From Gen Require Import GenGeom.
-From P Require Import Locate LocBasics LocSearch LocPolygon LocConvex LocBlock LocTrack LocRefuted LineModel LocRect LocLine.
+From P Require Import Locate LocBasics LocSearch LocPolygon LocConvex LocBlock LocTrack LocRefuted LineModel LocRect LocLine LocEnd.
 Import ListNotations.
 Open Scope Q_scope.
 
@@ -171,3 +171,86 @@ Proof.
   - intro H. assert (I : In ((4, 1), (4, 3)) (edges ex_hexagon)) by (cbn; tauto).
     specialize (H _ _ I). vm_compute in H. apply H. reflexivity.
 Qed.
+
+(** ** the hypotheses of the end-to-end track theorem hold together: columns 1 and 4 of the M-grid
+    ([0,100]x[0,100] and [0,100]x[100,200]) crossed by the vertical line x = 50 from y = -10 to y = 250 *)
+Definition ex_tdist2 (p : pt) : Q := py p + 10.
+Lemma ex_end_to_end_hyps :
+  let l1 := (50, -10) in let l2 := (50, 250) in let cols := [1; 4]%positive in
+  0 < 260 /\
+  (forall p t, pt_eq p (lpoint l1 l2 t) -> ex_tdist2 p == 260 * t) /\
+  NoDup cols /\
+  (forall c, In c cols -> (3 <= length (m_polygon c))%nat /\ convex_ccw (m_polygon c)) /\
+  (forall c, In c cols -> off_edge_lines (m_polygon c) l1) /\
+  (forall c, In c cols -> off_edge_lines (m_polygon c) l2) /\
+  (forall c, In c cols -> forall h, In h (lpi_hits (m_polygon c) l1 l2) ->
+     0 <= h_xi0 h /\ h_xi0 h <= 1 /\ 0 < h_xi1 h /\ h_xi1 h < 1) /\
+  (forall c, In c cols -> dedup_ok (lpi_points (m_polygon c) l1 l2) (lpi_points (m_polygon c) l1 l2)) /\
+  (forall t, 0 <= t -> t <= 1 -> forall c c', In c cols -> In c' cols ->
+     strictly_inside (m_polygon c) (lpoint l1 l2 t) -> strictly_inside (m_polygon c') (lpoint l1 l2 t) -> c = c') /\
+  map seg_col (column_track m_polygon (lirf m_polygon l1 l2) (fun c => lpi_points (m_polygon c) l1 l2)
+                 ex_tdist2 (fun _ => 100) track_tol l1 l2 cols) = [1; 4]%positive.
+Proof.
+  cbn zeta. split; [reflexivity|]. split.
+  { intros p t [_ Ey]. unfold ex_tdist2. rewrite Ey. unfold lpoint, py. cbn [fst snd]. ring. }
+  split; [repeat constructor; cbn; intuition discriminate|]. split.
+  { intros c [<-|[<-|[]]]; (split; [cbn; lia|]); apply rectangle_convex; reflexivity. }
+  split.
+  { intros c [<-|[<-|[]]] a b H; cbn in H;
+      repeat (destruct H as [H|H]; [inversion H; subst; vm_compute; discriminate|]); destruct H. }
+  split.
+  { intros c [<-|[<-|[]]] a b H; cbn in H;
+      repeat (destruct H as [H|H]; [inversion H; subst; vm_compute; discriminate|]); destruct H. }
+  split.
+  { intros c [<-|[<-|[]]] h H; vm_compute in H;
+      repeat (destruct H as [H|H]; [subst h; cbn [h_xi0 h_xi1]; unfold Qle, Qlt; cbn; lia|]); destruct H. }
+  split; [intros; apply dedup_ok_refl|]. split.
+  { intros t T0 T1 c c' [<-|[<-|[]]] [<-|[<-|[]]] H H'; try reflexivity; exfalso.
+    - assert (E1 : In ((100, 100), (0, 100)) (edges (m_polygon 1))) by (cbn; tauto).
+      assert (E2 : In ((0, 100), (100, 100)) (edges (m_polygon 4))) by (cbn; tauto).
+      pose proof (H _ _ E1) as A. pose proof (H' _ _ E2) as B.
+      unfold orient, lpoint, px, py in A, B. cbn [fst snd] in A, B. lra.
+    - assert (E1 : In ((100, 100), (0, 100)) (edges (m_polygon 1))) by (cbn; tauto).
+      assert (E2 : In ((0, 100), (100, 100)) (edges (m_polygon 4))) by (cbn; tauto).
+      pose proof (H' _ _ E1) as A. pose proof (H _ _ E2) as B.
+      unfold orient, lpoint, px, py in A, B. cbn [fst snd] in A, B. lra. }
+  vm_compute. reflexivity.
+Qed.
+
+(** ** no hidden state: in the model an answer is a function of the CURRENT geometry and the query only.
+    A session is a list of queries put to one geometry; what was asked before -- or on which other
+    geometry -- cannot matter, by the very type of [answer].  (The implementation side of this, where a
+    cache or a remembered column could leak between calls, is TESTED by the sequence oracle.) *)
+Record geom := mkGeom { g_polygon : positive -> list pt; g_centre : positive -> pt; g_nbrs : positive -> list positive;
+                        g_bbox : positive -> rect; g_surface : positive -> Q; g_cols : list positive; g_layers : list layer }.
+Inductive query :=
+| Q2 (pos : pt) (columns : option (list positive)) (guess : option positive) (bounds : option bounds_arg) (qt : option qtree)
+| Q3 (pos : pt) (z : Q) (qt : option qtree).
+Inductive result := R2 (c : option positive) | R3 (b : option (nat * positive)).
+Definition answer (g : geom) (q : query) : result :=
+  match q with
+  | Q2 pos columns guess bounds qt =>
+      R2 (column_containing_point (g_polygon g) (g_centre g) (g_nbrs g) (g_bbox g) (g_cols g) pos columns guess bounds qt)
+  | Q3 pos z qt =>
+      R3 (block_containing_point (g_polygon g) (g_centre g) (g_nbrs g) (g_bbox g) (g_surface g) (g_cols g) (g_layers g) pos z qt)
+  end.
+(** a session with edits: each step either asks or replaces the geometry *)
+Inductive step := Ask (q : query) | Edit (g' : geom).
+Fixpoint run (g : geom) (steps : list step) : list result :=
+  match steps with
+  | [] => []
+  | Ask q :: r => answer g q :: run g r
+  | Edit g' :: r => run g' r
+  end.
+Fixpoint current (g : geom) (steps : list step) : geom :=
+  match steps with [] => g | Ask _ :: r => current g r | Edit g' :: r => current g' r end.
+Lemma run_app g s1 s2 : run g (s1 ++ s2) = run g s1 ++ run (current g s1) s2.
+Proof.
+  revert g. induction s1 as [|[q|g'] r IH]; intro g; cbn [app run current]; [reflexivity| |apply IH].
+  rewrite IH. reflexivity.
+Qed.
+(** the answer to a query after any history of queries and edits is the answer of the current geometry alone *)
+Lemma history_independent g history q : run g (history ++ [Ask q]) = run g history ++ [answer (current g history) q].
+Proof. rewrite run_app. reflexivity. Qed.
+Lemma queries_do_not_change_geometry g qs : current g (map Ask qs) = g.
+Proof. induction qs as [|q r IH]; [reflexivity|exact IH]. Qed.
